@@ -35,7 +35,7 @@ func c19Scenarios(tier string) []e3Scenario {
 			if tier != "thorough" && (i == 6 || j == 6 || i == 3 || j == 3) && i != j {
 				continue // quick: the nested-dispatch and 404 requests only against themselves
 			}
-			if tier != "thorough" && j >= 14 && i != j && i != 0 && i != 12 && !(i == 18 && j == 19) && !(i == 20 && j == 21) && !(i == 16 && j == 23) {
+			if tier != "thorough" && j >= 14 && i != j && i != 0 && i != 12 && !(i == 18 && j == 19) && !(i == 20 && j == 21) && !(i == 16 && j == 23) && !(i == 25 && j == 26) {
 				continue // quick: the XML entity, regex, custom-verb, tail-wildcard and panicking requests against themselves, the first GET and the negotiated entity; the two panicking requests, the two tenant requests and the two custom-verb requests against each other
 			}
 			sets = append(sets, []int{i, j})
